@@ -47,7 +47,7 @@ package smtp
 //@     split on sim,out,content by octet: dot= c == '.' | cr= c == 13 | lf= c == 10 | other= c != '.' && c != 13 && c != 10
 
 //@ contract (*lineLimitReader).Read(r, b) (n, err)
-//@   prop C19 C05
+//@   prop C01 C02 C04 C05 C19
 //@   requires r != nil && r.R != nil
 //@   requires r.curLineLength >= 0 && r.LineLimit >= 0 && r.LineLimit < 9223372036854775807
 //@   requires the-remembered-error-is-the-transports: r.err != ErrTooLongLine
@@ -441,16 +441,26 @@ package smtp
 //@   prop C04 C08 C09 C12
 //@   requires connInv(c) && !c.closed
 //@   requires c.lineLimitReader.LineLimit == c.server.MaxLineLength
-//@   modifies c.didAuth, c.replies, c.finals, c.lastCode, c.cbAuth, c.text.R.pos, c.text.R.iofail, c.text.R.unreadable, c.readErr
+//@   modifies c.didAuth, c.replies, c.finals, c.lastCode, c.cbAuth, c.fedPos, c.text.R.pos, c.text.R.iofail, c.text.R.unreadable, c.readErr
 //@   ensures inv: connInv(c) && !c.closed
 //@   ensures @C09 needs-greeting: old(c.helo) == "" ==> c.lastCode == 502 && c.replies == old(c.replies) + 1 && c.didAuth == old(c.didAuth) && c.cbAuth == old(c.cbAuth)
 //@   ensures @C09 at-most-once: old(c.didAuth) && old(c.helo) != "" ==> c.lastCode == 503 && c.replies == old(c.replies) + 1 && c.cbAuth == old(c.cbAuth)
 //@   ensures @C09 insecure-refused: !authAllowedSpec(c) ==> c.cbAuth == old(c.cbAuth) && c.didAuth == old(c.didAuth) && c.replies == old(c.replies) + 1 && c.lastCode >= 500
 //@   ensures @C09 success-only-with-235: c.didAuth != old(c.didAuth) ==> c.didAuth && c.lastCode == 235 && c.cbAuth > old(c.cbAuth)
 //@   ensures @C04 one-final-reply-unless-reading-failed: c.finals == old(c.finals) + 1 || (c.readErr && c.finals == old(c.finals))
+//@   before (*Conn).writeResponse: @C09 success-is-the-mechanisms-verdict-on-everything-the-client-sent: $1 == 235 ==> resultof("sasl.Server.Next", 1, 2) && resultof("sasl.Server.Next", 1, 3) == nil && c.fedPos == c.text.R.pos
+//@   before (*Conn).writeResponse: @C09 a-challenge-comes-from-the-mechanism-call-just-made: $1 == 334 ==> resultof("sasl.Server.Next", 1, 3) == nil && c.fedPos == c.text.R.pos
+//@   before sasl.Server.Next: @C09 the-first-response-is-the-initial-response-of-the-command-or-none: c.text.R.pos == old(c.text.R.pos) ==> $1 == ir && (len(parts) <= 1 ==> ir == nil) && (len(parts) > 1 ==> ir == resultof("decodeSASLResponse", 1, 1) && resultof("decodeSASLResponse", 1, 2) == nil)
 //@   loop 1:
 //@     invariant c.didAuth == old(c.didAuth) && c.finals == old(c.finals) && c.cbAuth >= old(c.cbAuth) && c.readErr == old(c.readErr)
+//@     invariant c.text.R.pos >= old(c.text.R.pos) && (c.text.R.pos == old(c.text.R.pos) ==> response == ir)
+//@     backedge @C09 the-next-response-is-the-decoded-line-just-read-and-not-the-cancel-token: encoded == resultof("(*Conn).readLine", 1, 1) && encoded != "*" && response == resultof("decodeSASLResponse", 2, 1) && resultof("decodeSASLResponse", 2, 2) == nil
 //@     invariant sasl != nil && sasl.conn == c && authAllowedSpec(c) && c.helo != "" && !c.didAuth
+
+//@ contract decodeSASLResponse(s) (b, err)
+//@   prop C09 C19
+//@   ensures @C09 the-equals-sign-stands-for-an-empty-response: s == "=" ==> err == nil && b != nil && len(b) == 0
+//@   ensures @C09 anything-else-is-base64: s != "=" ==> (err == nil) == b64OK(s) && len(b) == b64Len(s) && (forall i :: 0 <= i && i < len(b) ==> b[i] == b64At(s, i))
 
 // ---------------------------------------------------------------------------------------
 // LMTP status collector
@@ -547,6 +557,8 @@ package smtp
 //@   onrecv errOK($v)
 //@   recv 1: @C04,C17 result-of-this-transfer: $ch == c.dataResult
 //@   recv 2: @C13 status-of-the-recipient-being-answered: $ch == c.bdatStatus.status[rangeindex + 1]
+//@   before (*statusCollector).fillRemaining: @C13,C04 recipients-without-a-status-of-their-own-get-the-backends-result-for-this-message: $1 == resultof("recv", 1, 1) && $0 == c.bdatStatus
+//@   before dataErrorToStatus#1: @C04,C17 the-verdict-written-is-the-result-received-for-this-message: $0 == resultof("recv", 1, 1)
 //@   before (*io.PipeWriter).Close: @C07,C05 clean-eof-only-after-complete-last-chunk: last && lrOf(chunk).N == 0
 //@   ensures inv: connInv(c)
 //@   before io.Copy: @C05,C19,C04 no-line-limit-on-chunk-octets: c.lineLimitReader.LineLimit == 0 && c.lineLimitReader.curLineLength == 0
@@ -862,14 +874,16 @@ package smtp
 //@   modifies c.text.cmds, c.text.Reader.resps
 //@   ensures @C15 one-line: c.text.cmds == old(c.text.cmds) + 1
 //@   ensures err == nil ==> w != nil && istype(w, "*dataCloser") && !wasalloc(w)
+//@   ensures @C16 the-message-is-written-through-the-dot-stuffing-writer-of-this-connection: err == nil ==> called("(*net/textproto.Writer).DotWriter") && asref(w, "*dataCloser").WriteCloser == resultof("(*net/textproto.Writer).DotWriter", 1, 1)
 //@   ensures @C16,C18 the-writer-belongs-to-this-client-and-has-no-callback: err == nil ==> asref(w, "*dataCloser").c == c && asref(w, "*dataCloser").statusCb == nil && !asref(w, "*dataCloser").closed
 
 //@ contract (*Client).LMTPData(c, statusCb) (w, err)
-//@   prop C15 C18
+//@   prop C15 C16 C18
 //@   requires clientWF(c)
 //@   modifies c.text.cmds, c.text.Reader.resps
 //@   ensures @C15 at-most-one-line: c.text.cmds <= old(c.text.cmds) + 1
 //@   ensures err == nil ==> w != nil && istype(w, "*dataCloser") && !wasalloc(w)
+//@   ensures @C16 the-message-is-written-through-the-dot-stuffing-writer-of-this-connection: err == nil ==> called("(*net/textproto.Writer).DotWriter") && asref(w, "*dataCloser").WriteCloser == resultof("(*net/textproto.Writer).DotWriter", 1, 1)
 //@   ensures @C18 the-writer-reports-to-the-callback-given-and-to-nobody-if-none-was-given: err == nil ==> asref(w, "*dataCloser").c == c && asref(w, "*dataCloser").statusCb == statusCb && !asref(w, "*dataCloser").closed
 
 // ---------------------------------------------------------------------------------------
